@@ -19,7 +19,8 @@
 //   MV dst src mode                   move construction (0) / move assignment (1) dst = std::move(src); src is destroyed afterwards
 //   BA dst src                        static_cast<GaussianMixture&>(dst) = static_cast<const GaussianMixture&>(src)
 //   PE dst src                        dst += src
-//   PL dst a b                        dst = a + b
+//   PL dst a b                        dst = a + b   (a new object constructed from the returned value)
+//   PA dst a b                        dst = a + b   (assigned to the existing particle set in dst; dst may be a)
 //   WM s mode i j v  WC s mode i j k v  WW s mode i v  WS s mode i j v
 //                                     element writes; mode 0 element accessor, 1 through the block accessor,
 //                                     2 Gaussian's own accessor (i must be 0)
@@ -224,6 +225,11 @@ static std::string shp(Toks& t) {
             dst = slot(t.nat()); long a = slot(t.nat()), b = slot(t.nat());
             if (!pool[a].p || !pool[b].p || pool[a].kind != PS || pool[b].kind != PS) skip = true;
             else { ParticleSet* n = new ParticleSet(pool[a].ps() + pool[b].ps()); pool[dst].p.reset(n); pool[dst].kind = PS; }
+        } else if (op == "PA") {
+            // dst = a + b into an existing particle set: (move) assignment of the value operator+ returns
+            dst = slot(t.nat()); long a = slot(t.nat()), b = slot(t.nat());
+            if (!pool[a].p || !pool[b].p || pool[a].kind != PS || pool[b].kind != PS || !pool[dst].p || pool[dst].kind != PS) skip = true;
+            else pool[dst].ps() = pool[a].ps() + pool[b].ps();
         } else if (op == "WM") {
             dst = slot(t.nat()); long mode = t.nat(); std::size_t i = t.unat(), j = t.unat(); double v = t.dbl();
             if (!pool[dst].p || (mode == 2 && (pool[dst].kind != GA || i != 0))) skip = true;
